@@ -10,9 +10,13 @@ CHECKS = {
     'C01': dict(ready=False, technique='TLC trace validation of step/observation/membership records against GVTransitions/GVState + TLC model checking of closure on small scopes',
                 text='Every state of the small-scope families (all fillings of 1x2/2x1 grids from a 15-kind alphabet, 3x3 with few non-floor cells, every pose and held item) x every action x compositions is run through GridWorld.functional_step with debug checks on; TLC checks outcome, closure, reward/flag types on every record and model-checks closure of the specification; membership predicates compared on conforming states and single-fault mutants.',
                 note='numpy generator semantics; small-scope hypothesis for grid size; documented component preconditions'),
-    'C02': dict(ready=False, technique='TLC enumeration of interleavings (GVMultiEnv) replayed on real environments + digest memo across processes', text='', note=''),
+    'C02': dict(ready=True, technique='TLC enumeration of all interleavings (GVMultiEnv, with isolation action properties) replayed on real environments + digest memo across schedules and processes',
+                text='TLC enumerates every interleaving (depth 5 quick / 6 thorough, 2 environments; simulated longer schedules with 3) of environment operations, library-level draws, global numpy/python generator use and debug toggles; each schedule is executed on real environments, every result is memoised under (configuration, seed, own history) and must agree wherever it recurs, the three global generators are compared around every seeded operation, canonical runs of all shipped configurations are repeated in interpreter processes with different PYTHONHASHSEED, and every stochastic component is audited with an explicit recording generator.',
+                note='trusted: numpy generator determinism; digests are SHA-256 prefixes of the canonical JSON projection'),
     'C03': dict(ready=False, technique='TLC heap model behaviours replayed on real objects with identity/value snapshots; GVCache behaviours replayed on lru caches', text='', note=''),
-    'C04': dict(ready=False, technique='TLC enumeration of all call sequences of the GVEnv machine replayed on real GridWorld/OuterEnv with counting wrappers', text='', note=''),
+    'C04': dict(ready=True, technique='TLC enumeration of all call sequences of the GVEnv machine (with NotStale etc. as invariants) replayed on real GridWorld/OuterEnv with counting wrappers against a functional mirror',
+                text='Every sequence of reset / step / invalid step / observation and state reads / outer reads up to length 5 (6 thorough), plus interleavings with the functional interface and long simulated behaviours on all shipped configurations, is executed on real environments whose five components are wrapped in counters and whose generator records draws; after each operation outcome class, call counters, generator use, and equality with a second environment driven purely through the functional interface are compared with the machine.',
+                note='the machine abstracts states to identities; values are compared against the functional mirror, which C02 shows to be reproducible'),
     'C05': dict(ready=True, technique='TLC model checking of pipeline = pointwise (MC_Obs) + TLC trace validation of observation records (Trace_Obs)',
                 text='MC_Obs proves on the specification that slice/rotate/mask equals the pointwise statement for all labelled grids up to 3x3 (4x4 thorough), all poses, all areas with bounds in -2..2 (-3..3); the real observation functions are run on the same exhaustive family and on random grids up to 13x13 and every record is validated cell by cell by TLC.',
                 note='trusted: the JSON projection of states/observations; ray fans are taken from the implementation (validated by C19); partially_occluded/raytracing only on areas in their documented domain'),
@@ -56,7 +60,9 @@ CHECKS = {
     'C19': dict(ready=True, technique='TLC trace validation of logged rays (Trace_Rays, GVRays) + GVCache model behaviours replayed on the real lru caches',
                 text='Every ray of compute_rays_fancy, compute_rays and compute_ray (random directions) for all areas up to 5x5 (9x9 thorough) plus the shipped 7x7 and asymmetric areas and all origins is checked by TLC (start, containment, no repeats, 8-adjacency, ends on border, coverage); hit/miss/eviction histories generated from the GVCache model are replayed on the real cached function comparing answers and counters.',
                 note='the floating-point stepping is not modelled (postcondition check on logged rays)'),
-    'C20': dict(ready=False, technique='', text='', note=''),
+    'C20': dict(ready=True, technique='TLC enumeration of all gym-layer call sequences of the GVEnv machine replayed on real GymEnvironment / GymStateWrapper; registered ids compared with direct construction',
+                text='Every sequence of gym reset / step(i) / observation / state / representation switches (and of the state wrapper) up to length 5-6 is replayed on real adapters over a permuted 6-action space: the transition function must see actions[i], returned observations must be the representation of the post-step observation with the inner reward and flag, everything must lie in the advertised spaces, and switches must update them; all 21 registered ids (gym.make and spec factory) are run against the adapter built on their packaged file.',
+                note='GymEnvironment.seed() cannot run under gym 0.26 (seeding.create_seed missing) and is outside the statement; seeding goes through inner_env.set_seed'),
 }
 
 
